@@ -102,7 +102,7 @@ build_pem(str *out, const char *bname, const char *ename, int bdash, int edash,
 /* ------------------------------------------------------------------ */
 /* running the decoder */
 
-#define MAXOBJ 24
+#define MAXOBJ 100
 typedef struct {
 	char name[130];
 	int term;               /* 0 none, BR_PEM_END_OBJ, BR_PEM_ERROR */
@@ -162,7 +162,7 @@ run_decoder(prun *r, const unsigned char *txt, size_t len, vf_rng *rng, int chun
 			if (r->n >= MAXOBJ) { r->overflow = 1; goto out; }
 			r->open = r->n ++;
 			snprintf(r->o[r->open].name, sizeof r->o[r->open].name, "%s", br_pem_decoder_name(pc));
-			if ((g_skip_mask >> r->open) & 1) { r->o[r->open].skipped = 1; br_pem_decoder_setdest(pc, 0, 0); }
+			if (r->open < 32 && ((g_skip_mask >> r->open) & 1)) { r->o[r->open].skipped = 1; br_pem_decoder_setdest(pc, 0, 0); }
 			else br_pem_decoder_setdest(pc, data_cb, r);
 			break;
 		case BR_PEM_END_OBJ:
@@ -554,9 +554,9 @@ static const unsigned char BADCH[] = { '!', '#', '$', '%', '&', '(', ')', '*', '
 static const char B64[] = "ABCDEFGHIJKLMNOPQRSTUVWXYZabcdefghijklmnopqrstuvwxyz0123456789+/";
 
 enum { K_BADCHAR, K_EQ_EARLY, K_EQ3_DATA, K_DATA_AFTER_PAD, K_LINE_AFTER_PAD, K_PAD_MID,
-	K_SPLIT_QUARTET, K_BAD_END, K_PADBITS, K_NKINDS };
+	K_SPLIT_QUARTET, K_BAD_END, K_PADBITS, K_EQ_EOL, K_NKINDS };
 static const char *KNAME[] = { "bad-char", "eq-early", "eq3-then-data", "data-after-pad", "line-after-pad",
-	"pad-in-middle", "split-quartet", "bad-end-line", "nonzero-pad-bits" };
+	"pad-in-middle", "split-quartet", "bad-end-line", "nonzero-pad-bits", "pad-then-end-of-line" };
 
 /*
  * Append one object (possibly malformed) to `out`; fills the expectation.
@@ -618,6 +618,7 @@ emit_object(str *out, vf_rng *r, int kind, const char *name, const unsigned char
 		x->maxprefix = 3 * q;
 		break;
 	case K_SPLIT_QUARTET:
+	case K_EQ_EOL:
 		HASSERT(nq > 0, "gen");
 		break;                  /* handled while writing lines */
 	case K_BAD_END:
@@ -649,7 +650,17 @@ emit_object(str *out, vf_rng *r, int kind, const char *name, const unsigned char
 	str_adds(out, "-----\n");
 	{
 		size_t splitq = kind == K_SPLIT_QUARTET ? vf_below(r, (uint32_t)nq) : (size_t)-1;
+		size_t eolq = kind == K_EQ_EOL ? vf_below(r, (uint32_t)nq) : (size_t)-1;
 		for (q = 0; q < nq; q ++) {
+			if (q == eolq) {
+				/* two characters, '=' where the third one belongs, and the line ends there; what follows
+				   (the rest of the body, if any) belongs to an object that has already failed */
+				str_add(out, body.d + 4 * q, 2);
+				str_adds(out, "=\n");
+				x->maxprefix = 3 * q;
+				if (vf_below(r, 2)) break;
+				continue;
+			}
 			if (q == splitq) {
 				size_t at = 1 + vf_below(r, 3);
 				str_add(out, body.d + 4 * q, at);
@@ -854,6 +865,44 @@ multi_case(long long idx)
 	str_free(&t); str_free(&t2);
 }
 
+/* One decoder context over a long text: forty-five times a malformed object of one kind followed by a well-formed
+   one. Whatever an error path leaves behind in the context has forty-five occasions to pile up. */
+static void
+long_case(long long idx)
+{
+	vf_rng r;
+	int i, kind0 = (int)(idx % K_NKINDS), chunk;
+	static xobj x[90];
+	static unsigned char *pls[90];
+	static char names[90][40];
+	str t = { 0 };
+	prun pr;
+	char cs[200];
+
+	if (kind0 == K_PADBITS) kind0 = K_EQ_EOL;
+	vf_rng_init(&r, (uint64_t)g_seed, (9ull << 40) + (uint64_t)idx);
+	for (i = 0; i < 90; i ++) {
+		size_t len = vf_below(&r, 4) ? vf_below(&r, 40) : vf_range(&r, 240, 300);
+		int kind = -1;
+		if ((i & 1) == 0) kind = pick_kind(&r, kind0, &len);
+		pls[i] = malloc(len + 1);
+		gen_payload(&r, pls[i], len);
+		gen_name(&r, names[i], vf_range(&r, 0, 30));
+		emit_object(&t, &r, kind, names[i], pls[i], len, &x[i]);
+		if (vf_below(&r, 4) == 0) junk_lines(&t, &r);
+	}
+	chunk = (int)(idx / K_NKINDS) % 3 == 1 ? 1 : ((idx / K_NKINDS) % 3 == 2 ? 0 : 2);
+	snprintf(cs, sizeof cs, "long seed=%lld idx=%lld objects=90 bad-kind=%s chunk=%d", g_seed, idx, KNAME[kind0], chunk);
+	run_decoder(&pr, t.d, t.n, &r, chunk);
+	vf_stat("cases", 1);
+	vf_stat("cmp_pem_long_lived_context", 1);
+	vf_distinct("pem_long_cfg", "%s-chunk%d", KNAME[kind0], chunk);
+	judge(x, 90, &pr, "long", cs, t.d, t.n);
+	prun_free(&pr);
+	for (i = 0; i < 90; i ++) free(pls[i]);
+	str_free(&t);
+}
+
 /* ------------------------------------------------------------------ */
 
 int
@@ -877,6 +926,7 @@ main(int argc, char **argv)
 	}
 	for (i = g_worker; i < nbad; i += g_nworkers) bad_case(i);
 	for (i = g_worker; i < nmulti; i += g_nworkers) multi_case(i);
+	for (i = g_worker; i < 3 * K_NKINDS * (nmulti >= 400 ? 4 : 1); i += g_nworkers) long_case(i);
 	vf_done();
 	return 0;
 }
